@@ -37,7 +37,7 @@ func (c C14Case) hash() uint64 {
 	return hashBytes([]byte(c.Obj.Kind + "\x00" + c.Obj.Expr + "\x00" + c.Obj.Opts.Hook + c.Obj.Opts.Unknown + c.Obj.Opts.Tag + fmt.Sprint(c.Obj.Opts.Max) + "\x00" + c.Datum.String() + c.Op + pre))
 }
 
-var mixedFamilyNames = []string{"eq", "path", "in", "re", "poison", "nested", "tslice", "tptr", "filter", "tfilter", "eq", "path", "ieq", "neq", "fold", "qfilter", "deep", "dfilter", "ikin", "keyre", "eqchain"}
+var mixedFamilyNames = []string{"eq", "path", "in", "re", "poison", "nested", "tslice", "tptr", "filter", "tfilter", "eq", "path", "ieq", "neq", "fold", "qfilter", "deep", "dfilter", "ikin", "keyre", "eqchain", "numin"}
 
 func genClasses(r *plan.Rand) string {
 	n := r.Range(2, 8)
@@ -91,7 +91,7 @@ func GenC14Case(seed uint64, idx int) C14Case {
 			}
 			return c
 		}
-		if fam == "filter" || fam == "tfilter" || fam == "qfilter" || fam == "dfilter" {
+		if fam == "filter" || fam == "tfilter" || fam == "qfilter" || fam == "dfilter" || fam == "numin" {
 			c.Op = "exec"
 			c.Obj = ObjSpec{Kind: "filter", Expr: body}
 			if r.Chance(0.3) {
